@@ -33,9 +33,9 @@ def entropic_mirror_descent(loss_and_grad, x0, total, iters=250):
         #Q *= total / Q.sum()
         new_loss, new_dL = loss_and_grad(Q)
 
-        if loss - new_loss >= 0.5*alpha*dL.dot(P-Q):
+        if loss - new_loss > 0.5*alpha*dL.dot(P-Q):
             #print(alpha, loss)
-            logP = logQ
+            logP, P = logQ, Q
             loss, dL = new_loss, new_dL
             # increase step size if we haven't already decreased it at least once
             if not begun: alpha *= 2
